@@ -80,6 +80,28 @@ def respec (m : Int) : List Wm.SEv → List Wm.SEv
 /-- one raw event of a read: `-` = keyed to nothing, `a+b` = keyed to events with these timestamps -/
 def parseRaw (s : String) : Wm.REv := .events (if s == "-" then [] else (s.splitOn "+").map intOr)
 
+/-- the operator-mode operations (`Timers.Op`: keyed events, watermark messages, source completions, redeployments);
+also the operator mode of C10's driver section — it does not touch the watermarker definitions -/
+def stepOp (st : St) : List String → St × String
+  | ["keyed", _, k, ts] =>
+    let r := st.op.keyed (hexOr k) (parseInts ts)
+    let c := specComposite st.ids st.msgs
+    ({ st with op := r.1 }, withSpec s!"c={r.1.reg.wm} {showReqs r.2}" s!"c={c} {showReqs (retold c r.2)}")
+  | ["complete", i] =>
+    -- `SourceComplete` of a runner: flushes the batch; the runner's latest watermark keeps counting
+    let r := st.op.complete s!"sr{natOr i}"
+    let c := specComposite st.ids st.msgs
+    ({ st with op := r.1 }, withSpec s!"c={r.1.reg.wm} {showReqs r.2}" s!"c={c} {showReqs (retold c r.2)}")
+  | ["redeploy"] =>
+    -- `HandleDeploy` again on the same operator (fresh storage): new registry, no runner has reported
+    ({ st with op := st.op.redeploy (Store.new [] st.kgc 0 st.kgc 1073741824) st.ids, msgs := [] }, "ok")
+  | ["wm", i, t] =>
+    let r := st.op.watermark s!"sr{natOr i}" (intOr t)
+    let msgs := st.msgs ++ [(s!"sr{natOr i}", intOr t)]
+    let c := specComposite st.ids msgs
+    ({ st with op := r.1, msgs := msgs }, withSpec s!"c={r.1.reg.wm} {showReqs r.2}" s!"c={c} {showReqs (retold c r.2)}")
+  | _ => (st, "bad-op")
+
 def step (st : St) : List String → St × String
   | "lread" :: raws => ({ st with loopEvs := st.loopEvs ++ raws.map parseRaw }, "ok")
   | ["ltick"] => ({ st with loopEvs := st.loopEvs ++ [.tick] }, "ok")
@@ -103,19 +125,8 @@ def step (st : St) : List String → St × String
     match Wm.runnerStep st.rw .tick with
     | (w, some v) => ({ st with rw := w }, withSpec (toString v) spec)
     | (w, none) => ({ st with rw := w }, withSpec "none" spec)
-  | ["keyed", _, k, ts] =>
-    let r := st.op.keyed (hexOr k) (parseInts ts)
-    let c := specComposite st.ids st.msgs
-    ({ st with op := r.1 }, withSpec s!"c={r.1.reg.wm} {showReqs r.2}" s!"c={c} {showReqs (retold c r.2)}")
-  | ["redeploy"] =>
-    -- `HandleDeploy` again on the same operator (fresh storage): new registry, no runner has reported
-    ({ st with op := st.op.redeploy (Store.new [] st.kgc 0 st.kgc 1073741824) st.ids, msgs := [] }, "ok")
-  | ["wm", i, t] =>
-    let r := st.op.watermark s!"sr{natOr i}" (intOr t)
-    let msgs := st.msgs ++ [(s!"sr{natOr i}", intOr t)]
-    let c := specComposite st.ids msgs
-    ({ st with op := r.1, msgs := msgs }, withSpec s!"c={r.1.reg.wm} {showReqs r.2}" s!"c={c} {showReqs (retold c r.2)}")
-  | _ => (st, "bad-op")
+  | ws => stepOp st ws
+
 
 def handle (lines : Array String) (i : Nat) (out : Array String) : Nat × Array String :=
   let hdr := if i = 0 then [] else words (lines.getD (i - 1) "")
